@@ -619,11 +619,17 @@ func (in *inst) rewrite(f *ast.File) {
 				case *ast.ExprStmt:
 				case *ast.AssignStmt:
 					if len(p.Rhs) != 1 {
-						in.unhandled(n, "nested receive")
+						in.changed = true
+						in.stat("nestedrecv")
+						c.Replace(vcall("AfterRecv", n, in.site(n)))
 					}
 				case *ast.ParenExpr:
 				default:
-					in.unhandled(n, "nested receive")
+					// a receive inside a larger expression (return <-done, f(<-ch)): the value passes through a helper that
+					// yields once the receive has completed, as the statement forms do with a yield after the statement
+					in.changed = true
+					in.stat("nestedrecv")
+					c.Replace(vcall("AfterRecv", n, in.site(n)))
 				}
 			}
 		case *ast.ReturnStmt:
